@@ -16,6 +16,7 @@
   (`G`), asked of the job, of the reference run and of every prefix (crash image).
 -/
 import SfProofs.AbsWriteBridgeSmall1
+import SfProofs.AbsWriteRate
 import SfProps.C04Wve
 import SfProps.C04Mat4
 import SfProps.C04Mpc2k
@@ -184,7 +185,31 @@ def htkGeom (sr : Nat) : AbsWrite.Geom := { word := 0x100002, ch := 1, sr := sr 
 /-- the guards of `htk_reopen_info`: the 32-bit `2 * sample_count` arithmetic and the class KF-HTK-MAGIC-CLASH -/
 def htkGuard (sr D : Nat) : Prop := 12 + D < 2 ^ 31 ∧ ¬ C04Htk.KF.magicClash sr (D / 2)
 
-theorem htk_facts (sr : Nat) (hwf : Htk.wf sr) (hrate : rateOk 0x10 sr ((Htk.quant sr : Nat) : Int) = true) :
+/-- THE PERIOD CLAUSE IS EXACT AND COMPLETE FOR HTK: what the model's quantiser (`Htk.quant`: 10^7 / (10^7 / sr), 16000 for a
+    zero period) makes of ANY positive rate is accepted by the rate clause of the write-side predicate — no rate hypothesis
+    remains on `htk_session_accepted` -/
+theorem htk_rate_exact_accepted (sr : Nat) (_h1 : 1 ≤ sr) : rateOk 0x10 sr ((Htk.quant sr : Nat) : Int) = true := by
+  apply AbsWriteRate.rateOk_period_complete 0x10 (10 ^ 7) 31 sr _ AbsWriteRate.rateClass_htk
+  · intro hp _
+    unfold Htk.quant Htk.period; rw [if_pos hp]
+  · unfold Htk.quant Htk.period
+    split
+    · rename_i hp
+      exact Nat.div_pos (Nat.div_le_self _ _) hp
+    · decide
+
+/-- … and it accepts nothing else where the field can express the rate: the clause pins the re-open rate to the quantiser -/
+theorem htk_rate_exact_only (sr : Nat) (h1 : 1 ≤ sr) (h2 : sr ≤ 10000000) (got : Int) (h : rateOk 0x10 sr got = true) :
+    got = ((Htk.quant sr : Nat) : Int) := by
+  have hpos : 0 < 10000000 / sr := Nat.div_pos h2 h1
+  rcases (AbsWriteRate.rateOk_period_iff 0x10 (10 ^ 7) 31 sr got AbsWriteRate.rateClass_htk).1 h with ⟨_, _, hg⟩ | ⟨h0 | hb, _⟩
+  · rw [hg]; unfold Htk.quant Htk.period; rw [if_pos hpos]
+  · have : 10 ^ 7 / sr = 10000000 / sr := rfl
+    omega
+  · have hlt : 10 ^ 7 / sr < 2 ^ 31 := Nat.lt_of_le_of_lt (Nat.div_le_self _ _) (by decide)
+    omega
+
+theorem htk_facts (sr : Nat) (hwf : Htk.wf sr) :
     Small.Small2Facts (Htk.fmt sr) Htk.parse (htkGeom sr) (.pcm ⟨16, false, true⟩) (guardOf (2 * 1) (htkGuard sr)) := by
   obtain ⟨m1, m2, m3⟩ := small2_machine_facts (Htk.fmt sr) (Htk.lawful sr) rfl
   refine { chpos := Nat.one_pos, nb := by decide, wf := by decide,
@@ -201,24 +226,31 @@ theorem htk_facts (sr : Nat) (hwf : Htk.wf sr) (hrate : rateOk 0x10 sr ((Htk.qua
   rw [← e] at h1
   refine ⟨_, h1, by simp [Small2.opsData, Enc.nbytes, PcmFmt.nbytes, htkGeom], rfl, rfl, ?_⟩
   have hm : (htkGeom sr).major = 0x10 := by simp [htkGeom, Geom.major]
-  rw [hm]; exact hrate
+  rw [hm]; exact htk_rate_exact_accepted sr hwf.1
 
-/-- HTK: every job is accepted under the guards of `htk_reopen_info` (asked of the finished file and of every crash image)
-    and for every rate the first-order tolerance of the rate clause covers (`htk_rate_tolerance`) -/
-theorem htk_session_accepted (sr : Nat) (hwf : Htk.wf sr) (hrate : rateOk 0x10 sr ((Htk.quant sr : Nat) : Int) = true)
+/-- HTK: every job at EVERY rate is accepted under the guards of `htk_reopen_info` (asked of the finished file and of every
+    crash image) -/
+theorem htk_session_accepted (sr : Nat) (hwf : Htk.wf sr)
     (ty : Ty) (stale stale' : Nat) (ops : List Small.Op) (hv : Valid 1 ty ops)
     (hguard : ∀ p post, ops = p ++ post → htkGuard sr ((Small.sampleList p).length * 2)) :
     accepted (Small.recordOf (small2Cont (Htk.fmt sr) Htk.parse (htkGeom sr) (.pcm ⟨16, false, true⟩)) ty stale stale' ops) = true :=
-  small2_session_accepted _ _ _ _ _ (htk_facts sr hwf hrate) ty stale stale' ops hv hguard
+  small2_session_accepted _ _ _ _ _ (htk_facts sr hwf) ty stale stale' ops hv hguard
 
-/-- the rate clause of the predicate accepts what HTK's period field makes of every rate the campaign asks for … -/
-theorem htk_rate_tolerance : ∀ sr ∈ [1, 8000, 11025, 16000, 22050, 44100, 48000, 65535, 65536, 96000, 2 ^ 30 - 1, 2 ^ 30, 2 ^ 30 + 1, 2 ^ 31 - 1],
+/-- the clause at the rates the campaigns ask for, by evaluation (6 MHz is stored as period 1 and read as 10 MHz; above 10 MHz the
+    period is 0 and the reader's guess 16000 is "any positive rate") -/
+theorem htk_rate_tolerance : ∀ sr ∈ [1, 8000, 11025, 16000, 22050, 44100, 48000, 65535, 65536, 96000, 3200000, 3333334, 5000000, 6000000, 9999999,
+      10000000, 10000001, 2 ^ 30 - 1, 2 ^ 30, 2 ^ 30 + 1, 2 ^ 31 - 1],
     rateOk 0x10 sr ((Htk.quant sr : Nat) : Int) = true := by decide
 
-/-- … but its tolerance `sr²/10⁷ + 1` is first order in the period: between about 3.2 MHz and 10 MHz the field's quantum is
-    coarser than that (6 MHz is stored as period 1 = 10 MHz), so the clause would flag a correct library there — outside every
-    rate the campaign generates, and the reason `htk_session_accepted` carries `hrate` -/
-theorem htk_rate_tolerance_gap : rateOk 0x10 6000000 ((Htk.quant 6000000 : Nat) : Int) = false := by decide
+/-- the first-order tolerance the period clause used before it was made exact: |got − sr| ≤ max 1 (sr² / u + 1) -/
+def periodTolOld (u sr : Nat) (got : Int) : Bool := (got - (sr : Int)).natAbs ≤ max 1 (sr * sr / u + 1)
+
+/-- **htk_rate_tolerance_old_rule** — the predicate imprecision the exact clause removed: the first-order tolerance refused what a
+    CORRECT library answers between about 3.2 MHz and 10 MHz (6 MHz is period 1 = 10 MHz), and accepted wrong answers at
+    ordinary rates (44101 for 44100 Hz, whose period 226 reads back as 44247 and as nothing else) -/
+theorem htk_rate_tolerance_old_rule :
+    periodTolOld (10 ^ 7) 6000000 ((Htk.quant 6000000 : Nat) : Int) = false ∧ rateOk 0x10 6000000 ((Htk.quant 6000000 : Nat) : Int) = true ∧
+    periodTolOld (10 ^ 7) 44100 44101 = true ∧ rateOk 0x10 44100 44101 = false := by decide
 
 /-! ## PVF (PCM_S8 / PCM_16 / PCM_32 big endian, text header, no close function) -/
 
